@@ -566,7 +566,6 @@ func (s *state) visitForRange(node *ast.ForNode) {
 		varLimit,
 		varStep,
 		varIndex = s.scope.pushForRange(node.Var)
-	defer s.scope.pop()
 	s.jsln("var ", varLimit, " = ", limitJs, ";")
 	s.jsln("var ", varStep, " = ", incrementJs, ";")
 	// isFirst / isLast / index count iterations, as they do in a foreach.
@@ -577,6 +576,15 @@ func (s *state) visitForRange(node *ast.ForNode) {
 	s.walk(node.Body)
 	s.indentLevels--
 	s.jsln("}")
+	s.scope.pop()
+	if node.IfEmpty != nil {
+		// no iteration happened: the {ifempty} block, outside the loop variable's scope.
+		s.jsln("if (", varIndex, " == 0) {")
+		s.indentLevels++
+		s.walkBlock(node.IfEmpty)
+		s.indentLevels--
+		s.jsln("}")
+	}
 }
 
 func (s *state) visitForeach(node *ast.ForNode) {
